@@ -64,6 +64,9 @@ type AnonFirst struct {
 	Tags  map[string]Tag2
 }
 
+// a pointer type that is its own element type
+type SelfPtr *SelfPtr
+
 // container types that contain themselves
 type SelfMap map[string]SelfMap
 type Nest []Nest
@@ -233,6 +236,10 @@ func c16Check(c *ctx, t reflect.Type, witness interface{}, wlabel string, seed u
 
 func runC16(c *ctx) {
 	c.rule = "every zoo type plus self-referential, mutually recursive, slice-of-slice, custom-named and interface-holding types x witnesses from the zero value (all pointers nil, all containers nil), the empty-container value, to populated values (3 seeds), incl. cyclic witnesses; ExtractTypeNameMap must finish within a deadline, give every statically reachable struct/slice type a wire name that the type map maps back to it (custom name when declared), and the maps must encode and decode three other values of the type; TypeMapOf(type) must finish and contain every reachable struct type. Distinct by (type, witness); all non-trivial."
+	if os.Getenv("HX_C16_SELFPTR") != "" { // run in a subprocess under a timeout: see c16Extras
+		hessian.TypeMapOf(reflect.TypeOf(SelfPtr(nil)))
+		os.Exit(0)
+	}
 	only := os.Getenv("HX_C16_ONLY")
 	if rp, ok := c.extra["replay"].(string); ok {
 		only = loadReplay(rp)["type"].(string)
@@ -394,6 +401,19 @@ func c16Extras(c *ctx) {
 		c.eval("nil/untyped")
 		tm, nm = hessian.ExtractTypeNameMap(nil)
 		xtrCorr(c, nil, tm, nm)
+	}
+	// a pointer type that is its own element type: UnpackPtrType has no base type to arrive at
+	{
+		c.eval("selfptr/TypeMapOf")
+		self, _ := os.Executable()
+		dir, _ := os.MkdirTemp(c.outDir, "p")
+		cmd := exec.Command("timeout", "3", self, "C16", "-seed", "1", "-tier", "quick", "-out", dir)
+		cmd.Env = append(os.Environ(), "HX_C16_SELFPTR=1")
+		err := cmd.Run()
+		os.RemoveAll(dir)
+		if err != nil {
+			c.fail("TypeMapOf does not terminate", map[string]interface{}{"op": "typemapof", "type": "type SelfPtr *SelfPtr"}, "no result after 3 s: "+err.Error(), "C16-F3-self-pointer-type-spins")
+		}
 	}
 	// types reachable only through interface values
 	w := &WithIface{Any: []interface{}{&OnlyInIface{1}, int32(2), []interface{}{&Inner{1, "x"}}}}
